@@ -1439,6 +1439,53 @@ func Open
       invariant[flock]       lkMode[lock] == 2 && lkPath[lock] == lockFile(dir) && lkExcl[lockFile(dir)] && !old(lkExcl)[lockFile(dir)]
                                  && (forall p string :: p != lockFile(dir) ==> lkExcl[p] == old(lkExcl)[p]) && (forall p string :: lkShared[p] == old(lkShared)[p])
 
+// ================================================================ blocking consume (C18): the wrappers around the notifier
+// Clauses labelled notify_*: the wrapper waits on the notifier for the caller's offset and then returns exactly
+// what Consume / ConsumeByKey return; Publish tells the notifier the offset the log returned, only on success.
+
+// ASSUMED frame of the wrapped log's Publish: it changes the abstract log and the caller's batch, nothing of the notifier
+iface Log.Publish
+    assigns gLive, gNext, gMicro, gSize, gKey, gHasValue, gCount, gTotal, elems(messages)
+
+func WrapBlocking
+    flags noframe only_notify
+    // the notifier starts at the log's NextOffset
+    assert[notify_init] arg0 == next at call notify.NewOffset 1
+    ensures[notify_wrapped] ret1 == nil ==> typeis(ret0, *blockingLog) && notifyWf(ret0.(*blockingLog).notify) && ret0.(*blockingLog).Log == l
+
+func (*blockingLog).Publish
+    flags noframe only_notify
+    requires[notify_ok] notifyWf(l.notify)
+    // publish, then notify: only after a successful publish, with the offset the log returned
+    assert[notify_after]   err == nil && arg1 == nextOffset at call (*Offset).Set 1
+    assert[notify_failed]  ret0 == OffsetInvalid && ret1 != nil at return 1
+    assert[notify_success] ret0 == nextOffset && ret1 == nil at return 2
+    ensures[notify_wf]     notifyWf(l.notify)
+
+func (*blockingLog).ConsumeBlocking
+    flags noframe only_notify
+    requires[notify_ok] notifyWf(l.notify)
+    // wait for the caller's offset with the caller's context ...
+    assert[notify_wait]    arg0 == l.notify && arg1 == ctx && arg2 == offset at call (*Offset).Wait 1
+    // ... a failed wait is the answer (cancelled context, closed notifier) ...
+    assert[notify_waiterr] ret0 == OffsetInvalid && len(ret1) == 0 && ret2 != nil at return 1
+    // ... otherwise the answer is exactly what Consume returns for the same arguments at that moment
+    assert[notify_consume] arg0 == offset && arg1 == maxCount at call Log.Consume 1
+
+func (*blockingLog).ConsumeByKeyBlocking
+    flags noframe only_notify
+    requires[notify_ok] notifyWf(l.notify)
+    assert[notify_wait]    arg0 == l.notify && arg1 == ctx && arg2 == offset at call (*Offset).Wait 1
+    assert[notify_waiterr] ret0 == OffsetInvalid && len(ret1) == 0 && ret2 != nil at return 1
+    assert[notify_consume] arg0 == key && arg1 == offset && arg2 == maxCount at call Log.ConsumeByKey 1
+
+func (*blockingLog).Close
+    flags noframe only_notify
+    requires[notify_ok] notifyWf(l.notify)
+    // the notifier is closed (waking every waiter) before the log is
+    assert[notify_first] chClosed(l.notify.barrier) at call Log.Close 1
+    assert[notify_twice] ret0 != nil at return 1
+
 func (*log).Close
     flags locks only_locks only_sync only_flock noframe
     // C19: Close releases the directory lock
